@@ -868,6 +868,15 @@ def gen_c11(tier, rng):
                             cases.append(f"pfprefilter x={hexs(x)} i1={i1} i2={i2} a={k % 64} h={hexs(bytes(h))}" + (f" cpu={cpu}" if cpu else ""))
                         for isa in ("sse2", "avx2"):
                             cases.append(f"ppprefilter isa={isa} x={hexs(x)} i1={i1} i2={i2} a={k % 64} h={hexs(bytes(h))}")
+    # the portable prefilter accepts ANY haystack: shorter than the needle, shorter than either pair offset, empty
+    # (the vector prefilters have a minimum length, the portable one has none)  (seeded change C11-j)
+    for x in (b"abcdefghijkl", bytes(range(1, 41))):
+        n = len(x)
+        for (i1, i2) in ((9, 2), (2, 9), (n - 1, 0), (0, n - 1), (5, 6)):
+            for L in sorted(set([0, 1, 2, min(i1, i2), max(i1, i2) - 1, max(i1, i2), max(i1, i2) + 1, n - 1])):
+                for fill in (b"q", bytes([x[i1]]), bytes([x[i2]])):
+                    k += 1
+                    cases.append(f"pfprefilter x={hexs(x)} i1={i1} i2={i2} a={k % 64} h={hexs(fill * L)}")
     return cases
 
 # --------------------------------------------------------------------------
